@@ -806,7 +806,10 @@ func (w *Worker) close() {
 func (w *Worker) runPath(prefix []Decision) {
 	e := w.eng
 	if e.Opt.Timeout > 0 && time.Since(e.start) > e.Opt.Timeout {
-		e.note(func(res *Result) { res.Truncated = true; res.Budget["wall-clock limit reached; remaining paths not explored"]++ })
+		e.note(func(res *Result) {
+			res.Truncated = true
+			res.Budget["wall-clock limit reached; remaining paths not explored"]++
+		})
 		return
 	}
 	if e.Opt.MaxPaths > 0 {
